@@ -165,17 +165,12 @@ async fn axum_json_tea<T: Deserr<Tea> + ToModel + 'static>(r: &Req) -> (Obs, Obs
 async fn actix_json<T: Deserr<JsonError> + ToModel + 'static>(r: &Req) -> (Obs, Obs, Class) {
     // the extractor under test
     let (req, mut pl) = actix_req(r);
+    let mut carried: Option<String> = None;
     let got = match AwebJson::<T, JsonError>::from_request(&req, &mut pl).await {
         Ok(v) => Obs::Ok(v.into_inner().to_model()),
         Err(e) => {
-            // "the rejection carries exactly the deserr error"
-            let carried = e.as_error::<JsonError>().map(|j| j.to_string());
-            match actix_resp(e).await {
-                Obs::Rejected(400, c, b) if carried.is_some() && carried.as_deref() != std::str::from_utf8(&b).ok() => {
-                    Obs::Rejected(400, c, [b, b" <but the carried JsonError reads differently>".to_vec()].concat())
-                }
-                o => o,
-            }
+            carried = e.as_error::<JsonError>().map(|j| j.to_string());
+            actix_resp(e).await
         }
     };
     // the reference: the framework's own extractor on an identical request, then deserr
@@ -184,9 +179,25 @@ async fn actix_json<T: Deserr<JsonError> + ToModel + 'static>(r: &Req) -> (Obs, 
         Err(e) => (actix_resp(e).await, Class::FrameworkRejection),
         Ok(doc) => match deserr::deserialize::<T, _, JsonError>(doc.into_inner()) {
             Ok(v) => (Obs::Ok(v.to_model()), Class::WellTyped),
-            // JsonError's own ResponseError: 400, text/plain (exactly), the message
-            Err(e) => (Obs::Rejected(400, Some("=text/plain".into()), e.to_string().into_bytes()), Class::DeserrFailure),
+            Err(e) => {
+                // "the rejection carries exactly the deserr error": it renders as the error itself renders,
+                // which for JsonError is status 400 with the message as body
+                let msg = e.to_string();
+                let own = actix_resp(actix_web::Error::from(e)).await;
+                let own = match own {
+                    Obs::Rejected(400, ct, b) if b == msg.as_bytes() => Obs::Rejected(400, ct.map(|c| format!("={c}")), b),
+                    other => Obs::Rejected(400, None, format!("<JsonError itself does not render as 400 + message: {}>", show(&other)).into_bytes()),
+                };
+                (own, Class::DeserrFailure)
+            }
         },
+    };
+    // the actix error must BE the deserr error (downcast), not a rebuilt look-alike
+    let got = match (&class, &got, &want) {
+        (Class::DeserrFailure, Obs::Rejected(s, c, b), Obs::Rejected(_, _, wb)) if carried.as_deref().map(|m| m.as_bytes()) != Some(wb.as_slice()) => {
+            Obs::Rejected(*s, c.clone(), [b.clone(), b" <the actix error does not carry the JsonError itself>".to_vec()].concat())
+        }
+        _ => got,
     };
     (got, want, class)
 }
@@ -215,8 +226,16 @@ async fn axum_json<T: Deserr<JsonError> + ToModel + 'static>(r: &Req) -> (Obs, O
         Err(rej) => (axum_resp(rej.into_response()).await, Class::FrameworkRejection),
         Ok(axum::Json(doc)) => match deserr::deserialize::<T, _, JsonError>(doc) {
             Ok(v) => (Obs::Ok(v.to_model()), Class::WellTyped),
-            // "status 400 with the message as body"
-            Err(e) => (Obs::Rejected(400, None, e.to_string().into_bytes()), Class::DeserrFailure),
+            // what the error itself renders; for JsonError that is status 400 with the message as body
+            Err(e) => {
+                let msg = e.to_string();
+                let own = axum_resp(e.into_response()).await;
+                let own = match own {
+                    Obs::Rejected(400, ct, b) if b == msg.as_bytes() => Obs::Rejected(400, ct.map(|c| format!("={c}")), b),
+                    other => Obs::Rejected(400, None, format!("<JsonError itself does not render as 400 + message: {}>", show(&other)).into_bytes()),
+                };
+                (own, Class::DeserrFailure)
+            }
         },
     };
     (got, want, class)
@@ -236,7 +255,7 @@ async fn actix_query<T: Deserr<JsonError> + ToModel + 'static>(qs: &str) -> (Obs
         Err(e) => (actix_resp(e.into()).await, Class::FrameworkRejection),
         Ok(doc) => match deserr::deserialize::<T, _, JsonError>(doc.into_inner()) {
             Ok(v) => (Obs::Ok(v.to_model()), Class::WellTyped),
-            Err(e) => (Obs::Rejected(400, Some("text/plain".into()), e.to_string().into_bytes()), Class::DeserrFailure),
+            Err(e) => (actix_resp(actix_web::Error::from(e)).await, Class::DeserrFailure),
         },
     };
     // from_query directly, too
